@@ -176,6 +176,14 @@ pub fn cases(opts: &Opts) -> Vec<Case> {
             }
             name.push_str("+errors");
         }
+        if i % 7 == 6 {
+            // two files of one package directory fail to *load* (syntax errors)
+            let pi = p.usize(proj.pkgs.len());
+            proj.pkgs[pi].nfiles = proj.pkgs[pi].nfiles.max(2);
+            proj.pkgs[pi].raw.push_str("\nfn zz_broken_a( -> {\n");
+            proj.pkgs[pi].raw_last.push_str("\nstruct ZzBrokenB {{ x int32\n");
+            name.push_str("+2badfiles");
+        }
         let keep = if i % 3 == 2 { None } else { Some(proj.clone()) };
         out.push(Case { name, files: proj.render(), proj: keep, gen_index: Some(i) });
     }
@@ -330,7 +338,7 @@ fn minimise_files(sb: &Sandbox, files: &Files, a: &Config, b: &Config, field: &s
     cur
 }
 
-fn check_case(sb: &Sandbox, opts: &Opts, idx: usize, case: &Case, runs: usize) -> CaseResult {
+fn check_case(sb: &Sandbox, opts: &Opts, idx: usize, case: &Case, runs: usize, prev_files: Option<&Files>) -> CaseResult {
     let layout = Layout::scan(&case.files);
     let topo = if layout.pkgs.len() >= 1 && layout.pkgs.contains_key("Main") {
         layout.topo(&mut Prng::new(mix(&[opts.seed, idx as u64, purpose("topo")])))
@@ -415,6 +423,49 @@ fn check_case(sb: &Sandbox, opts: &Opts, idx: usize, case: &Case, runs: usize) -
             break;
         }
     }
+    // A long-lived host (LSP, playground) compiles many programs on one thread: what was
+    // compiled before must not change the result. The neighbouring case is compiled first on the
+    // same simulated-process thread, then this one; the result must equal the fresh-thread one.
+    if violation.is_none() {
+        if let Some(prev) = prev_files {
+            let mut both = case.files.clone();
+            for (k, v) in prev {
+                both.insert(format!("zzprev/{k}"), v.clone());
+            }
+            sb.materialise(&both);
+            let p1 = sb.path("zzprev/main.gom");
+            let p2 = sb.path("main.gom");
+            let spec = ProcSpec { entropy: c0.entropy, readdir: c0.readdir, ..Default::default() };
+            let r = crate::world::run_process(&sb.root, &spec, None, move || {
+                let _ = crate::cli::entry(&["goml".to_string(), "run".to_string(), p1]);
+                let mut args = vec!["goml".to_string(), "run".to_string()];
+                args.extend(ops::ALL_DUMPS.iter().map(|d| d.to_string()));
+                args.push(p2);
+                crate::cli::entry(&args)
+            });
+            procs += 2;
+            // stdout holds the first program's nothing (no dumps requested) and the second's dumps
+            let (sum, _) = ops::summarise_run(sb, &r);
+            let mut after = Observed::new();
+            let mut sum2 = sum.clone();
+            if let Some(crate::cli::CliOut::Compiled(c)) = &r.value {
+                sum2.go_text = c.go_text.clone();
+            }
+            observe_run(&sum2, &mut after);
+            for key in ["run:verdict", "run:go", "run:diagnostics", "dump:Go", "dump:Core", "dump:Typed AST"] {
+                if base.get(key) != after.get(key) && base.contains_key(key) {
+                    violation = Some(Violation {
+                        property: PROP.into(),
+                        class: "nondeterministic:compile-history".into(),
+                        key: json!({"class": "nondeterministic", "field": "compile-history"}),
+                        what: format!("C13: `{}` of project {} differs when another project was compiled before it on the same thread (state leaking between compilations)", key, case.name),
+                        replay: json!({"kind": "c13-history", "case": case.name, "field": key, "files": files_json(&both), "config_a": c0}),
+                    });
+                    break;
+                }
+            }
+        }
+    }
     let sample = Some(json!({
         "project": case.name,
         "packages": layout.pkgs.values().map(|p| json!({"name": p.name, "files": p.files, "imports": p.imports})).collect::<Vec<_>>(),
@@ -463,7 +514,11 @@ pub fn run(opts: &Opts) -> i32 {
         all.len(),
         opts.workers,
         |w| Sandbox::new(&format!("c13w{w}")).expect("sandbox"),
-        |sb, i| check_case(sb, opts, i, &all[i], runs),
+        |sb, i| {
+            // the "previous compilation" of case i is case i+1 (same kind of project nearby)
+            let prev = if all[i].files.len() <= 12 && all[(i + 1) % all.len()].files.len() <= 12 { Some(&all[(i + 1) % all.len()].files) } else { None };
+            check_case(sb, opts, i, &all[i], runs, prev)
+        },
     );
     let mut violations = Vec::new();
     let mut nontrivial_cases = 0u64;
@@ -589,6 +644,36 @@ pub fn replay(file: &Value) -> bool {
     }
     let a: Config = serde_json::from_value(r["config_a"].clone()).expect("config_a");
     let b: Config = serde_json::from_value(r["config_b"].clone()).expect("config_b");
+    if r["kind"] == "c13-history" {
+        let field = r["field"].as_str().unwrap_or("").to_string();
+        sb.materialise(&files);
+        let spec = ProcSpec { entropy: a.entropy, readdir: a.readdir, ..Default::default() };
+        let run = |with_prev: bool| -> Observed {
+            let p1 = sb.path("zzprev/main.gom");
+            let p2 = sb.path("main.gom");
+            let r = crate::world::run_process(&sb.root, &spec, None, move || {
+                if with_prev {
+                    let _ = crate::cli::entry(&["goml".to_string(), "run".to_string(), p1]);
+                }
+                let mut args = vec!["goml".to_string(), "run".to_string()];
+                args.extend(ops::ALL_DUMPS.iter().map(|d| d.to_string()));
+                args.push(p2);
+                crate::cli::entry(&args)
+            });
+            let (sum, _) = ops::summarise_run(&sb, &r);
+            let mut sum2 = sum.clone();
+            if let Some(crate::cli::CliOut::Compiled(c)) = &r.value {
+                sum2.go_text = c.go_text.clone();
+            }
+            let mut o = Observed::new();
+            observe_run(&sum2, &mut o);
+            o
+        };
+        let fresh = run(false);
+        let after = run(true);
+        println!("replayed: compile history, field `{field}` {}", if fresh.get(&field) != after.get(&field) { "differs" } else { "is equal" });
+        return fresh.get(&field) != after.get(&field);
+    }
     if r["kind"] == "c13-stale-link" {
         let i = r["gen_index"].as_u64().unwrap_or(0);
         let mut p = Prng::derive(file["seed"].as_u64().unwrap_or(0), i, "c13-project");
